@@ -263,7 +263,9 @@ def check_grid(ctx, eng, w, h, d, per, do_engine=True, do_kin=True, tag=""):
     dims = (w, h, d)
     n = w * h * d
     sj = shape_json(w, h, d, per)
+    genv = [(3 * i + w + 2 * h) % 4 for i in range(n)]      # a cell_env map that tells the cells apart
     g = mk_grid(w, h, d, per)
+    g_env = mk_grid(w, h, d, per, cell_env=genv)       # (the engine / kinetics systems on `g` have one environment)
     cells = [spec_coords(w, h, d, i) for i in range(n)]
     nontriv = n > 1
     pkey = "".join("P" if p else "R" for p in per)
@@ -343,6 +345,27 @@ def check_grid(ctx, eng, w, h, d, per, do_engine=True, do_kin=True, tag=""):
             elif e2 is None:
                 ctx.violation("reject-coords", "get_cell_coordinates(%r) outside the %dx%dx%d grid returned %r instead of raising" % (v, w, h, d, co),
                               case, impl=list(co), expected="exception")
+        # every other accessor that takes a position: the cell's own data inside, a refusal outside (negative linear indices
+        # in [-size, -1] included: they must not wrap around)
+        for acc in ("get_cell_env", "get_cell_vol", "get_neighbors"):
+            r, e = call(getattr(g_env, acc), rp)
+            ctx.evaluations += 1
+            if inside:
+                if acc == "get_cell_env":
+                    okv = e is None and int(r) == genv[want_idx]
+                elif acc == "get_cell_vol":
+                    okv = e is None and float(r.value) == 1.0
+                else:
+                    okv = e is None and sorted(set(int(x) for x in r) - {want_idx}) == \
+                        sorted(j for j in range(n) if spec_adjacent(dims, per, cells[want_idx], cells[j]))
+                if not okv:
+                    ctx.violation("accessor:%s:%s" % (acc, fkind), "%s(%s %r) on %dx%dx%d %s = %r, not the data of cell %d"
+                                  % (acc, form, v, w, h, d, pkey, r if e is None else e, want_idx), dict(case, accessor=acc),
+                                  impl=repr(r) if e is None else e, expected="data of cell %d" % want_idx)
+            elif e is None:
+                ctx.violation("reject-%s:%s" % (acc, fkind), "%s(%s %r) outside the %dx%dx%d grid returned %r instead of raising"
+                              % (acc, form, v, w, h, d, r), dict(case, accessor=acc), impl=repr(r), expected="exception")
+                ctx.count("accessor_outside_accepted")
 
     # ------------------------------------------------------------------ B. are_neighbors, all ordered pairs
     are = [[None] * n for _ in range(n)]
@@ -373,7 +396,8 @@ def check_grid(ctx, eng, w, h, d, per, do_engine=True, do_kin=True, tag=""):
         i, j = rng.randrange(n), rng.randrange(n)
         f1, f2 = rng.choice(forms), rng.choice(forms)
         pairs.append(((f1, i if f1 == "n" else cells[i]), (f2, j if f2 == "n" else cells[j]), True))
-    outs = [("n", -1), ("n", n), ("n", n + 3), ("tuple", (w, 0, 0)), ("obj", (0, -1, 0)), ("tuple", (0, 0, d))]
+    outs = [("n", -1), ("n", -n), ("n", -n - 1), ("n", n), ("n", n + 3), ("tuple", (w, 0, 0)), ("obj", (0, -1, 0)), ("tuple", (0, 0, d)),
+            ("tuple", (-1, 0, 0)), ("obj", (0, 0, -d))]
     for o in outs:
         i = rng.randrange(n)
         pairs.append((o, ("n", i), False))
